@@ -197,6 +197,16 @@ func c15Check(c c15Case) error {
 	p := &emPair{em: asm.NewEmitter(buf, true), m: asmcat.NewModel(capacity, false, true), target: buf}
 	orig := p.em
 	useClone := c.CloneTo > c.CloneFrom && c.CloneTo <= len(c.Ops)
+	var detached *asm.Emitter
+	useDetached := func() {
+		if detached != nil {
+			_ = rig.Safe(func() error {
+				detached.Comment("variant")
+				detached.EmitBytes([]byte{0xDE, 0xAD, 0xBE})
+				return nil
+			})
+		}
+	}
 	join := func() error {
 		var pan interface{}
 		func() {
@@ -206,6 +216,10 @@ func c15Check(c c15Case) error {
 		if pan != nil {
 			return fmt.Errorf("Append of the clone failed: %v", pan)
 		}
+		// the clone is an emitter of its own and may be used further after it was appended (say, to build a variant):
+		// that is no call on the original and must not show in the original's program or listings
+		detached = p.em
+		useDetached()
 		p.em, p.lenBias, p.target = orig, 0, buf
 		return nil
 	}
@@ -229,6 +243,7 @@ func c15Check(c c15Case) error {
 			return err
 		}
 	}
+	useDetached() // once more after the original's own later calls
 	if !bytes.Equal(p.em.Bytes(), p.m.Bytes) {
 		return fmt.Errorf("emitted image differs from the model at byte %d", firstDiff(p.em.Bytes(), p.m.Bytes))
 	}
@@ -274,6 +289,29 @@ func TestC15(t *testing.T) {
 		"than 16 bytes or a label reference; distinct = hash(case).",
 		func(r *rig.Run) {
 			ev := r.Ev
+			// large programs: data blocks and total sizes beyond 4 KiB / 64 KiB, several hundred lines, a base that makes the
+			// addresses run across a bank boundary
+			if rig.Shard() == 0 {
+				nop := asmcat.Op{Kind: "ins", Method: "NOP"}
+				var many []asmcat.Op
+				for i := 0; i < 700; i++ {
+					many = append(many, nop)
+					if i%100 == 50 {
+						many = append(many, asmcat.Op{Kind: "comment", Text: fmt.Sprint("block ", i)}, asmcat.Op{Kind: "data", V: 33, Seed: uint32(i)})
+					}
+				}
+				for bi, ops := range [][]asmcat.Op{
+					{{Kind: "data", V: 4097, Seed: 1}, nop},
+					{nop, {Kind: "data", V: 65535, Seed: 2}, nop, {Kind: "data", V: 17, Seed: 3}, {Kind: "label", Label: "l0"}, nop},
+					{{Kind: "setbase", V: 0x7EFFF0}, {Kind: "data", V: 40, Seed: 4}, {Kind: "label", Label: "l0"}, nop, {Kind: "data", V: 70000, Seed: 5}, nop},
+					many,
+				} {
+					c := c15Case{Ops: ops, Tight: bi%2 == 0}
+					r.CheckSweep("large", c, func() error { return c15Check(c) })
+					ev.Case(true, rig.Hash64("large", bi), nil)
+					ev.Class("large-program(>4KiB-or->64KiB-or-700-lines)")
+				}
+			}
 			r.Rapid("rapid", rig.Pick(25000, 100000), func(t *rapid.T) {
 				c := c15Case{Tight: rapid.IntRange(0, 3).Draw(t, "tight") == 0, Finalize: rapid.Bool().Draw(t, "finalize")}
 				c.Ops = asmcat.GenHistory(t, asmcat.GenOpts{MaxOps: rig.Pick(30, 80), Labels: true, Data: true, Comments: true, LongComments: true, SetBase: true, Assume: true})
